@@ -1,5 +1,5 @@
 /* C20: _write_all under DFCC.  Real code: /repo/mtbl/writer.c */
-#include "/repo/mtbl/writer.c"
+#include "mtbl/writer.c"
 #include "spec/writer.spec.h"
 
 void h_write_all(void)
